@@ -180,17 +180,49 @@ func c20Sync(h *SLOCfgHandlerForConfigMapEvent, ev *c20Event, data map[string]st
 	h.syncNodeSLOSpecIfChanged(c20ConfigMap(data))
 }
 
-// c20JudgeEvent judges the state after the last event. prior is the model before it.
-func c20JudgeEvent(h *SLOCfgHandlerForConfigMapEvent, prior, cur *c20Model, ev *c20Event, vars [][]c20Variant, count func(string, int64)) (viol []mc.Violation) {
+// c20JudgeEvent judges the state after the last event. prior is the model before it, before is what the three
+// nodes were delivered before it.
+//   - unparsable section: what every node is delivered for that section must be exactly what it was delivered
+//     before the event (the statement's "leaves the previously effective settings in force"; no model needed);
+//   - absent section / deleted ConfigMap: the defaults;
+//   - every section additionally against the reference overlay of the text that is in force by the statement
+//     (mismatches there are layering violations and carry the same keys as in the leaf parts, unless the
+//     delivered section still equals the overlay of the PREVIOUS text: then the new text was not followed).
+func c20JudgeEvent(h *SLOCfgHandlerForConfigMapEvent, before [3]map[string]map[string]string, prior, cur *c20Model, ev *c20Event, vars [][]c20Variant, count func(string, int64)) (viol []mc.Violation) {
 	_, flats, err := c20Observe(h, []int{0, 1, 2})
 	if err != nil {
 		return []mc.Violation{{Key: "C20|history|deliver-error", What: err.Error()}}
 	}
-	found, _ := c20JudgeAll(cur.raw, flats)
 	secs := c20Schema()
 	seen := map[string]bool{}
+	add := func(key, what string) {
+		if !seen[key] {
+			seen[key] = true
+			viol = append(viol, mc.Violation{Key: key, What: what})
+		}
+	}
+	notKept := map[int]bool{}
+	if !ev.Delete {
+		for i, s := range secs {
+			if vars[i][ev.V[i]].Class != "unparsable" {
+				continue
+			}
+			for n := 0; n < 3; n++ {
+				if !c20FlatEq(before[n][s.Name], flats[n][s.Name]) {
+					notKept[i] = true
+					add("C20|history|unparsable-section-not-kept|"+s.Name, fmt.Sprintf("event %s made section %s unparsable (%s); node %s was delivered %v before the event and %v after it (in force before: %s)",
+						ev.Name, s.Name, vars[i][ev.V[i]].Text, c20NodeNames[n], before[n][s.Name], flats[n][s.Name], prior.tags[i]))
+					break
+				}
+			}
+		}
+	}
+	found, _ := c20JudgeAll(cur.raw, flats)
 	for _, f := range found {
 		i := indexOfSection(f.Sec)
+		if notKept[i] {
+			continue
+		}
 		class := "delete"
 		vname := "configmap deleted"
 		text := ""
@@ -204,8 +236,8 @@ func c20JudgeEvent(h *SLOCfgHandlerForConfigMapEvent, prior, cur *c20Model, ev *
 			key = "C20|history|deleted-configmap-not-default|" + f.Sec.Name
 		case "absent":
 			key = "C20|history|absent-section-not-default|" + f.Sec.Name
-		case "unparsable":
-			key = "C20|history|unparsable-section-not-kept|" + f.Sec.Name
+		case "unparsable": // kept, but what was kept is not the overlay of the text in force: a layering violation that existed before
+			key = "C20|" + f.MM.Clause + "|" + f.Sec.Name + "." + f.MM.Class
 		default:
 			stale := false
 			if prior.tags[i] != cur.tags[i] {
@@ -219,14 +251,10 @@ func c20JudgeEvent(h *SLOCfgHandlerForConfigMapEvent, prior, cur *c20Model, ev *
 				key = "C20|" + f.MM.Clause + "|" + f.Sec.Name + "." + f.MM.Class
 			}
 		}
-		if seen[key] {
-			continue
-		}
-		seen[key] = true
-		viol = append(viol, mc.Violation{Key: key, What: fmt.Sprintf("after event %s (section %s was %q, in force before: %s, in force by the statement now: %s): %s",
-			ev.Name, f.Sec.Name, vname, prior.tags[i], cur.tags[i], c20What(f.Sec, f.Node, f.MM, text))})
+		add(key, fmt.Sprintf("after event %s (section %s was %q, in force before: %s, in force by the statement now: %s): %s",
+			ev.Name, f.Sec.Name, vname, prior.tags[i], cur.tags[i], c20What(f.Sec, f.Node, f.MM, text)))
 	}
-	if count != nil && len(found) == 0 {
+	if count != nil && len(found) == 0 && len(viol) == 0 {
 		anyUnp, anyFollow := false, false
 		for i := range secs {
 			if ev.Delete {
@@ -313,6 +341,10 @@ func c20SectionsPart(env *mc.Env) {
 				unp = append(unp, nil)
 			}
 			prior := m.clone()
+			_, before, err := c20Observe(h, []int{0, 1, 2})
+			if err != nil {
+				panic(err)
+			}
 			data := m.apply(ev, vars)
 			c20Sync(h, ev, data)
 			events = append(events, data)
@@ -323,7 +355,7 @@ func c20SectionsPart(env *mc.Env) {
 				}
 			}
 			unp = append(unp, u)
-			viol = c20JudgeEvent(h, prior, m, ev, vars, l.Count)
+			viol = c20JudgeEvent(h, before, prior, m, ev, vars, l.Count)
 		})
 		if ps != "" {
 			viol = append(viol, mc.Violation{Key: "C20|panic|sections", What: ps})
@@ -369,12 +401,19 @@ type c20HistSys struct {
 func (s *c20HistSys) Apply(op int, check bool) (bool, []mc.Violation) {
 	ev := &s.events[op]
 	prior := s.m.clone()
+	var before [3]map[string]map[string]string
+	if check {
+		var err error
+		if _, before, err = c20Observe(s.h, []int{0, 1, 2}); err != nil {
+			return true, []mc.Violation{{Key: "C20|history|deliver-error", What: err.Error()}}
+		}
+	}
 	data := s.m.apply(ev, s.vars)
 	c20Sync(s.h, ev, data)
 	if !check {
 		return true, nil
 	}
-	return true, c20JudgeEvent(s.h, prior, s.m, ev, s.vars, s.res.Count)
+	return true, c20JudgeEvent(s.h, before, prior, s.m, ev, s.vars, s.res.Count)
 }
 
 func (s *c20HistSys) Invariants() []mc.Violation { return nil }
